@@ -60,7 +60,7 @@ OutHook(st, kind, item, n) == [st |-> st, hook |-> [k |-> kind, item |-> item, n
 \* ------------------------------------------------------------------ keys
 Digits == {"0", "1", "2", "3", "9"}
 CmdToks == {"open_alice", "open_n2", "open_bad", "feed_f", "feed_u", "bad_cmd"}
-CharKeys == {"j", "k", "g", "h", "l", "sp", "c", "r", "a", "o", "p", "b", "x", "dot"} \cup Digits \cup {"colon"}
+CharKeys == {"j", "k", "g", "h", "l", "sp", "c", "r", "a", "o", "p", "b", "x", "hi", "dot"} \cup Digits \cup {"colon"}   \* "x": an unbound ASCII key, "hi": a byte >= 0x80
 Keys == CharKeys \cup {"enter", "esc", "bs"} \cup CmdToks
 
 DigitVal(d) == CASE d = "0" -> 0 [] d = "1" -> 1 [] d = "2" -> 2 [] d = "3" -> 3 [] OTHER -> 9
